@@ -14,6 +14,7 @@ from . import _rows
 
 PROP = "C19"
 LEVEL = "exploration"
+ANCHORS = ["_diag", "_prep_loss", "_gcolor", "_nice_float", "make_"]  # functions whose reached lines are reported in the evidence
 RULE = (
     "cases = random systems (any shape, multi-source, PMux, phases, groups on any subset) with realistic names "
     "('Buck 1.8V', '-12V (x)/y#1', leading digits, dots, spaces, +-_()/#) and, in the thorough tier, hostile names "
